@@ -794,7 +794,58 @@ func (x *parserExec) doParse(op POp) {
 		x.dead = true
 		return
 	}
+	x.callerModifiesBlock(blk, seqs, lits, n)
 	x.w += n
+}
+
+// callerModifiesBlock: the block is the caller's; it overwrites the literals
+// and sequences it got (an encoder that transforms them in place). The parser
+// must not notice: the bytes at the stream positions of the first and the last
+// literal of the block are read back with ByteAt.
+func (x *parserExec) callerModifiesBlock(blk *lz.Block, seqs []lz.Seq, lits []byte, n int) {
+	if len(lits) == 0 || x.dead {
+		return
+	}
+	first, last := -1, -1
+	p, used := x.w, 0
+	for _, s := range seqs {
+		if s.LitLen > 0 {
+			if first < 0 {
+				first = p
+			}
+			last = p + int(s.LitLen) - 1
+		}
+		p += int(s.LitLen) + int(s.MatchLen)
+		used += int(s.LitLen)
+	}
+	if used < len(lits) && p < x.w+n {
+		if first < 0 {
+			first = p
+		}
+		last = x.w + n - 1
+	}
+	for i := range lits {
+		lits[i] ^= 0x55
+	}
+	for i := range seqs {
+		seqs[i] = lz.Seq{LitLen: 0xdddddddd, MatchLen: 0xdddddddd, Offset: 0xdddddddd, Aux: 0xdddddddd}
+	}
+	x.heldSeqs, x.heldLits = cloneSeqs(seqs), cloneBytes(lits)
+	for _, q := range []int{first, last} {
+		if q < x.off || q >= len(x.fed) {
+			continue
+		}
+		var c byte
+		var err error
+		if x.call("ByteAt", []string{"C15", "C16"}, func() { c, err = x.p.ByteAt(int64(q)) }) {
+			return
+		}
+		if err != nil || c != x.fed[q] {
+			x.fatal([]string{"C01", "C15"}, "after the caller overwrote the literals of the block it got for [%d,%d), ByteAt(%d) = (%#x, %s); the stream has %#x there: the block's literals are not the caller's own memory",
+				x.w, x.w+n, q, c, errName(err), x.fed[q])
+			return
+		}
+	}
 }
 
 func (x *parserExec) checkSeqFields(seqs []lz.Seq, lits []byte) {
